@@ -284,6 +284,14 @@ func (p *Proxy) handleHTTP(r responder.Responder, proxyReq *http.Request) error 
 	slog.Debug("Handling HTTP request", "host", proxyReq.Host, "remote_addr", proxyReq.RemoteAddr)
 	metrics.Global.Requests.HTTPProxyRequests.Increment()
 
+	if requestLooped(proxyReq.Header) {
+		// The request was sent by this very proxy: its target is (or leads back to) our own address.
+		// Forwarding it again would go round for ever, and a GET would wait for the shared fetch it is itself part of.
+		slog.Error("Request loop detected", "host", proxyReq.Host, "url", proxyReq.URL)
+		r.WriteError("Loop Detected: the request target leads back to this proxy", http.StatusLoopDetected)
+		return ErrRequestLoop
+	}
+
 	clientHd := headers.ParseHeaderDirective(proxyReq.Header)
 	if proxyReq.Method == http.MethodGet {
 		// A GET may be answered from the store or fetched in full to be stored: the client's conditionals
